@@ -1065,6 +1065,12 @@ class Evaluator:
                 env2 = dict(cenv)
                 env2.update(dict(zip(names, args)))
                 return self.expr(node.body, Frame(cfr.fn, cfr.module, env2, cfr.self_cls, fr.depth + 1))
+        if isinstance(e.func, ast.Name) and fr.env.get(e.func.id, ("?",))[0] == "fn":
+            # a local name bound to a function of the package: the call is a call of that function
+            qn = fr.env[e.func.id][1]
+            cands = [x for x in self.model.all_functions() if x.qualname == qn and x.kind in ("function", "staticmethod")]
+            if len(cands) == 1:
+                return self.call_function(cands[0], None, None, args, kwargs, fr)
         fname = dotted(e.func)
         # builtins ----------------------------------------------------------------------
         if isinstance(e.func, ast.Name) and e.func.id not in fr.env:
@@ -1194,7 +1200,14 @@ class Evaluator:
         canon: Term
         fref = ("attr", self_term, f.name) if (self_term is not None and f.kind == "method") else ("fn", f.qualname)
         if bound is not None:
-            canon = ("call", fref, (), tuple(sorted(bound.items())))
+            # an argument spelled out with the value of its (constant) default is the same call as one that omits it
+            a_ = f.node.args
+            pos_ = list(a_.posonlyargs) + list(a_.args)
+            dflt = dict(zip([p.arg for p in pos_][::-1], list(a_.defaults)[::-1]))
+            dflt.update({p.arg: d for p, d in zip(a_.kwonlyargs, a_.kw_defaults) if d is not None})
+            shown = {k: v for k, v in bound.items()
+                     if not (k in dflt and isinstance(dflt[k], ast.Constant) and v == const(dflt[k].value))}
+            canon = ("call", fref, (), tuple(sorted(shown.items())))
         else:
             canon = ("call", fref, tuple(args), tuple(kwargs))
         if ((self.inline_methods or is_private_helper(f)) and bound is not None and fr.depth < self.max_depth and f.qualname not in self.opaque
